@@ -134,64 +134,22 @@ class ReedMullerDecoder(BaseBlockDecoder[ReedMullerCodeEncoder]):
 
         # For demonstration purposes, we'll create a basic structure
         # A real implementation would compute these based on the code properties
+        # One partition per generator row (monomial), in the order of the generator matrix rows.  Coordinate p
+        # evaluates variable i as bit (m-1-i) of p; the groups of a monomial fix the variables outside the monomial
+        # and run over all values of the variables inside it.
+        from itertools import combinations, product
+
+        r, m = self.encoder.order, self.encoder.length_param
         partitions = []
-
-        # Example partitioning logic - would need to be replaced with actual Reed-Muller partitioning
-        m = 0
-        r = 0
-
-        # Try to infer Reed-Muller parameters from code length and dimension
-        # For an (r,m) Reed-Muller code:
-        # - Length n = 2^m
-        # - Dimension k = sum(i=0 to r) of binomial(m,i)
-
-        # Infer m from code length
-        n = self.code_length
-        temp_m = 0
-        while 2**temp_m < n:
-            temp_m += 1
-        if 2**temp_m == n:
-            m = temp_m
-
-        # Given m, try to infer r from dimension
-        if m > 0:
-            k = self.code_dimension
-            temp_r = 0
-            temp_k = 0
-            while temp_k < k and temp_r <= m:
-                # Add binomial coefficient (m choose temp_r)
-                from math import comb
-
-                temp_k += comb(m, temp_r)
-                if temp_k == k:
-                    r = temp_r
-                    break
-                temp_r += 1
-
-        # Generate partitions based on Reed-Muller structure
-        if m > 0 and 0 <= r <= m:
-            # Generate partitions based on the cosets of the Reed-Muller code
-            # This is a simplified approach - actual implementation would be more involved
-
-            # For each information bit
-            for i in range(self.code_dimension):
-                # Create a partition for this bit
+        for order in range(r, -1, -1):
+            for monomial in combinations(range(m), order):
+                others = [i for i in range(m) if i not in monomial]
                 partition = []
-
-                # In a real implementation, these would be carefully constructed
-                # based on the algebraic structure of Reed-Muller codes
-                for j in range(2 ** (m - 1)):
-                    # Create groups of positions that form checks for this bit
-                    positions = []
-                    for offset in range(2**r):
-                        pos = (j * 2**r + offset) % self.code_length
-                        positions.append(pos)
-
-                    # Convert to tensor
+                for fixed in product([0, 1], repeat=len(others)):
+                    base = sum(bit << (m - 1 - i) for bit, i in zip(fixed, others))
+                    positions = [base + sum(bit << (m - 1 - i) for bit, i in zip(free, monomial)) for free in product([0, 1], repeat=order)]
                     partition.append(torch.tensor(positions, dtype=torch.long))
-
                 partitions.append(partition)
-
         return partitions
 
     def forward(self, received: torch.Tensor, *args: Any, **kwargs: Any) -> Union[torch.Tensor, Tuple[torch.Tensor, torch.Tensor]]:
@@ -257,6 +215,9 @@ class ReedMullerDecoder(BaseBlockDecoder[ReedMullerCodeEncoder]):
 
                 # Decode using Reed algorithm
                 u_hat = torch.zeros(self.code_dimension, dtype=torch.int, device=received.device)
+                # Working copy of the hard decisions; decided generator rows are removed from it (Reed's algorithm)
+                bx = r.to(torch.int) if self.input_type == "hard" else (r < 0).to(torch.int)
+                generator = self.encoder.generator_matrix.to(torch.int)
 
                 # Process each bit position using its corresponding partition
                 for j, partition in enumerate(self._reed_partitions):
@@ -275,7 +236,7 @@ class ReedMullerDecoder(BaseBlockDecoder[ReedMullerCodeEncoder]):
 
                             # Take relevant positions and compute parity
                             # Use indexing to select elements from the 1D tensor
-                            group_bits = r[valid_indices].to(torch.int)
+                            group_bits = bx[valid_indices]
                             checksum = torch.sum(group_bits) % 2
                             checksums.append(checksum.item())  # Use .item() to convert tensor to scalar
 
@@ -302,7 +263,7 @@ class ReedMullerDecoder(BaseBlockDecoder[ReedMullerCodeEncoder]):
                                 continue
 
                             # Take relevant positions
-                            group_bits = (r[valid_indices] < 0).to(torch.int)
+                            group_bits = bx[valid_indices]
                             group_reliabilities = torch.abs(r[valid_indices])
 
                             # Compute parity of hard decisions
@@ -326,6 +287,8 @@ class ReedMullerDecoder(BaseBlockDecoder[ReedMullerCodeEncoder]):
 
                         # Make decision
                         u_hat[j] = (decision_var < 0).to(torch.int)
+
+                    bx = (bx + u_hat[j] * generator[j]) % 2
 
                 # Store the decoded message
                 decoded[i] = u_hat
